@@ -21,7 +21,7 @@ func init() {
 			"R4: every success exit of the constructor passes the routine that recomputes the free counter from the headers; elsewhere the counter is touched only through sync/atomic. " +
 			"R5: Block and the header-coordinate helper reject segm>=segments and idx<0 before computing an offset (uses of the segment number are followed through merges of result variables). " +
 			"R6: in the functions that carry out FreeBlock every store hint=x is dominated by the hint>x edge (a hint that moves up hides free blocks). " +
-			"R7: every product that involves both the blocks-per-segment field and the block-size field uses (blocksPerSegment+1): a segment occupies its header block too (sibling agreement on the stride; floor: each of allocate, free, recount computes the stride in the functions that carry it out). R8: every path to a non-sentinel result of the geometry function takes an edge that bounds the block size from above (without it (8*bs+1)*bs overflows int and the wrapped geometry is accepted). R9: the constructor compares a value derived from the storage size with a bound derived from the int32 counter maximum before it hands out an allocator.",
+			"R7: every product that involves both the blocks-per-segment field and the block-size field uses (blocksPerSegment+1): a segment occupies its header block too (sibling agreement on the stride; floor: each of allocate, free, recount computes the stride in the functions that carry it out). R8: every path to a non-sentinel result of the geometry function takes an edge that bounds the block size from above (without it (8*bs+1)*bs overflows int and the wrapped geometry is accepted). R9: the constructor compares a value derived from the storage size with a bound derived from the int32 counter maximum before it hands out an allocator. R10: on the path of files.NewMMFile every (*os.File).Truncate sits behind a test that the file is shorter than the new size (opening never cuts an existing storage). R11: a hint that was stepped through a header block is set back to a header start (a multiple of the stride, or 0) before the next header is fetched or ErrExhausted is returned.",
 		NotDecided: "disjointness of block byte ranges and the index<->offset arithmetic as values; behaviour of the memory mapping; fairness under concurrency.",
 	})
 }
